@@ -242,8 +242,16 @@ pub fn set_current(s: String) {
     }
 }
 
-fn own_tid() -> i64 {
+pub fn own_tid() -> i64 {
     std::fs::read_link("/proc/thread-self").ok().and_then(|p| p.file_name().map(|f| f.to_string_lossy().to_string())).and_then(|s| s.parse().ok()).unwrap_or(-1)
+}
+
+/// CPU ticks (utime + stime) consumed so far by one thread of this process.
+pub fn thread_cpu_ticks(tid: i64) -> Option<u64> {
+    let stat = std::fs::read_to_string(format!("/proc/self/task/{tid}/stat")).ok()?;
+    let after = stat.rsplit_once(')')?.1;
+    let f: Vec<&str> = after.split_whitespace().collect();
+    Some(f.get(11)?.parse::<u64>().ok()? + f.get(12)?.parse::<u64>().ok()?)
 }
 
 /// (every other thread asleep, their total CPU ticks, their number)
